@@ -931,6 +931,40 @@ def run_model(lines: list[dict]) -> list:
 
 # ---------------------------------------------------------------- _Specification
 
+LT_TEXT_PARTS = ["&", "<", ">", '"', "'", "&amp;", "&lt;b&gt;", "<b>", "</a>", "&#65;", "&nbsp;", " ", "  ", "\n", "\t", "x", "speed", "é", "漢", "\U0001F600",
+                 "a && b", "1 < 2 > 0", "]]>", "hlink://", ";", "="]
+DEAD_UUID = "00000000-dead-4bad-8bad-000000000000"
+
+
+def lt_lstrip(v: str) -> str:
+    """v without a whitespace-only text run in front of its first link (or '' when v is whitespace only)"""
+    m = re.match(r"^\s+(?=<a |$)", v)
+    return v[m.end():] if m else v
+
+
+def rand_linked_text(rng, targets: list[tuple[str, str]], dead_ok: bool) -> tuple[str, bool]:
+    """A linked-text value in the form the getter returns: an arbitrary interleaving of plain-text runs (XML-legal
+    characters incl. markup-significant ones and entity look-alikes, HTML-escaped as `html.escape` does) and links to
+    live targets (link text = the target's current name) or, optionally, dead ones. Text may precede the first link,
+    sit between two links (possibly empty) and follow the last one. Returns (value, has_dead_link)."""
+    import html
+
+    def run() -> str:
+        k = rng.choice([0, 1, 1, 2, 3])
+        raw = "".join(rng.choice(LT_TEXT_PARTS) if rng.random() < 0.7 else rand_xml_string(rng, 1) for _ in range(k))
+        return html.escape(raw.replace("\r", " "))
+
+    out, has_dead = [run()], False
+    for _ in range(rng.choice([0, 1, 1, 2, 3])):
+        if dead_ok and rng.random() < 0.2:
+            out.append(f'<a href="hlink://{DEAD_UUID}">gone</a>')
+            has_dead = True
+        else:
+            uuid, name = rng.choice(targets)
+            out.append(f'<a href="hlink://{html.escape(uuid)}">{html.escape(name)}</a>')
+        out.append(run())
+    return "".join(out), has_dead
+
 
 def spec_part(ctx, out, ask, capellambse, helpers, _descriptors, etree, xml_legal):
     rng = ctx.rng
@@ -1066,6 +1100,69 @@ def spec_part(ctx, out, ask, capellambse, helpers, _descriptors, etree, xml_lega
         ask({"op": "spec", "kids": kids, "steps": steps,
              "oracle": {"esc": [[k, v] for k, v in oracle_esc.items()], "unesc": [[k, v] for k, v in oracle_unesc.items()]}}, cmp)
 
+    # ---- linked text as an arbitrary interleaving of text runs and links: get(set(v)) == v, and what was read can be
+    #      assigned back without changing the XML or the value
+    targets = [(o.uuid, o.name) for o in live if o.name]
+    fixed = []
+    for u, nm in targets[:2]:
+        import html as _html
+        link = f'<a href="hlink://{u}">{_html.escape(nm)}</a>'
+        fixed += [f"{link} &lt; 5 &amp; rising", f"{link}&lt;b&gt;not bold&lt;/b&gt;", f"{link} &amp;amp; {link} &gt; 0", f"a &lt; b, see {link}", f"{link}{link}",
+                  f"&quot;{link}&#x27; {link} end", f"{link}\n&amp;"]
+    cases = [(v, False) for v in fixed] + [rand_linked_text(rng, targets, True) for _ in range(ctx.pick(400, 5000))]
+    for idx, (v, has_dead) in enumerate(cases):
+        key = rng.choice(["LinkedText", "capella:linkedText"])
+        kids = [["bodies", "old"], ["languages", "capella:linkedText"]] if rng.random() < 0.7 else []
+        elm = mk(kids)
+        spec = _descriptors._Specification(model, elm)
+        rp = {"kind": "spec", "kids": kids, "steps": [{"o": "set", "k": key, "v": v}]}
+        cls = "dead-link" if has_dead else "interleaved"
+        out.case(("spec-lt", v), {"linked_text": v[:120]} if idx < 2 else None, nontrivial=bool(v))
+        out.hit(f"spec.linked.{cls}")
+        try:
+            spec[key] = v
+            raw = next(elm.iterchildren("bodies")).text
+            got = str(spec[key])
+        except Exception as e:
+            out.find(f"spec.linkedtext|valid-value-fails|{cls}", f"spec[{key!r}] = {v!r}: {type(e).__name__}: {e}", rp)
+            continue
+        if got != v:
+            if has_dead:
+                out.find("spec.linkedtext|dead-link-reads-as-placeholder", f"spec[{key!r}] = {v!r} (dead link) reads back {got!r}; "
+                         "re-assigning what was read replaces the link by literal text", rp)
+            elif got == lt_lstrip(v):
+                out.find("spec.linkedtext|whitespace-only-leading-text-dropped", f"spec[{key!r}] = {v!r} read back {got!r}: a whitespace-only text run "
+                         "before the first link (or a whitespace-only value) is dropped by lxml.html.fragments_fromstring", rp)
+            else:
+                out.find("spec.linkedtext|canonical-read-back-differs", f"spec[{key!r}] = {v!r} read back {got!r} (XML body {raw!r})", rp)
+        # what was read must be assignable again and read the same (and, without dead links, leave the XML unchanged)
+        try:
+            spec[key] = got
+            raw2 = next(elm.iterchildren("bodies")).text
+            got2 = str(spec[key])
+        except Exception as e:
+            out.find(f"spec.linkedtext|read-value-not-reassignable|{cls}", f"spec[{key!r}] = {v!r} reads {got!r}; assigning that back raises "
+                     f"{type(e).__name__}: {e}", rp)
+            continue
+        if got2 != got or (not has_dead and raw2 != raw):
+            out.find(f"spec.linkedtext|read-value-not-reassignable|{cls}", f"spec[{key!r}] = {v!r} reads {got!r}; assigning that back gives XML "
+                     f"{raw2!r} (was {raw!r}) and reads {got2!r}", rp)
+        out.traces_validated += 1
+        if lean_ok(v) and lean_ok(got):
+            steps = [{"o": "set", "k": key, "v": v}, {"o": "get", "k": key}, {"o": "set", "k": key, "v": got}, {"o": "get", "k": key}]
+            impl_res = [{"ok": None}, {"ok": got}, {"ok": None}, {"ok": got2}]
+            final = kids_of(elm)
+
+            def cmp2(ans, impl_res=impl_res, final=final, kids=kids, steps=steps):
+                m = ans.get("ok")
+                iv = {"results": impl_res, "kids": final}
+                if m != iv:
+                    out.disagree("spec", {"kids": kids, "steps": steps}, iv, m if m is not None else ans)
+                out.hit("spec.ops", len(steps))
+
+            ask({"op": "spec", "kids": kids, "steps": steps,
+                 "oracle": {"esc": [[x, esc(x)] for x in {v, got}], "unesc": [[x, unesc(x)] for x in {raw or "", raw2 or "", "old"}]}}, cmp2)
+
 
 # ---------------------------------------------------------------- live model, save and reload
 
@@ -1130,6 +1227,27 @@ def live_part(ctx, out, capellambse, helpers, pvmt_config, xml_legal, monitor_ex
                                  {"kind": "live", "class": clsname, "pyname": name, "value": repr(v)[:200]})
                     planned.append((obj.uuid, name, kind, label, v, want, obj._element.get(d.attribute)))
                     out.case(("live", rd, obj.uuid, name, repr(v)[:60]), nontrivial=not is_default)
+        lt_planned = []
+        lt_targets = [(o.uuid, o.name) for o in list(model.search("LogicalFunction"))[:8] if o.name]
+        cons = [c for c in model.search("Constraint") if next(c._element.iterchildren("ownedSpecification"), None) is not None]
+        rng.shuffle(cons)
+        for con in cons[: ctx.pick(6, 12)]:
+            v, _ = rand_linked_text(rng, lt_targets, False)
+            try:
+                con.specification["LinkedText"] = v
+                got = str(con.specification["LinkedText"])
+            except Exception as e:
+                out.find("spec.linkedtext|valid-value-fails|interleaved", f"live Constraint.specification['LinkedText'] = {v!r}: {type(e).__name__}: {e}",
+                         {"kind": "live-spec", "value": v})
+                continue
+            if got != v and got == lt_lstrip(v):
+                out.find("spec.linkedtext|whitespace-only-leading-text-dropped", f"live Constraint.specification['LinkedText'] = {v!r} read back {got!r}",
+                         {"kind": "live-spec", "value": v})
+            elif got != v:
+                out.find("spec.linkedtext|canonical-read-back-differs", f"live Constraint.specification['LinkedText'] = {v!r} read back {got!r}",
+                         {"kind": "live-spec", "value": v})
+            lt_planned.append((con.uuid, got))  # after save and reload the same value must be read
+            out.case(("live-lt", rd, con.uuid, v), nontrivial=bool(v))
         try:
             model.save()
             model2 = capellambse.MelodyModel(str(dst / "Melody Model Test.aird"))
@@ -1138,6 +1256,16 @@ def live_part(ctx, out, capellambse, helpers, pvmt_config, xml_legal, monitor_ex
                      {"kind": "live-reload", "round": rd})
             shutil.rmtree(dst, ignore_errors=True)
             continue
+        for uuid, v in lt_planned:
+            try:
+                got = str(model2.by_uuid(uuid).specification["LinkedText"])
+            except Exception as e:
+                got = f"{type(e).__name__}: {e}"
+            if got != v:
+                out.find("spec.reload|linkedtext-differs-after-save-reload", f"Constraint.specification['LinkedText'] = {v!r} reads {got!r} after save and reload",
+                         {"kind": "live-spec", "value": v})
+            out.traces_validated += 1
+            out.hit("reload.linkedtext")
         for uuid, name, kind, label, v, want, xml in planned:
             o2 = model2.by_uuid(uuid)
             d = getattr(type(o2), name)
